@@ -271,3 +271,71 @@ def cholesky_factor_as_triangular(E, b):
     import scipy.linalg as sl
     c = np.linalg.cholesky(E)
     return sl.solve_triangular(c, b, lower=True)
+
+
+# ---- LOSSY-GUARD
+def discard_on_diagonal_only(x, sigma_k=None):
+    if sigma_k is not None:
+        variances = np.diag(sigma_k) if sigma_k.ndim >= 2 else sigma_k
+        if np.all(variances == variances[0]):
+            sigma_k = None
+    return x if sigma_k is None else x @ sigma_k
+
+
+def discard_on_whole_test(x, sigma_k=None):
+    if sigma_k is not None and np.all(sigma_k == np.eye(len(sigma_k)) * sigma_k[0, 0]):
+        sigma_k = None
+    return x if sigma_k is None else x @ sigma_k
+
+
+# ---- STALE-DEFAULT
+def flag_before_default(ds, method, cv_descriptor=None):
+    crossval = 0 if cv_descriptor is None else 1
+    if method == 'cv':
+        if cv_descriptor is None:
+            cv_descriptor = 'index'
+    codes = np.unique(ds[cv_descriptor], return_inverse=True)[1]
+    return kernel(ds, codes, crossval)
+
+
+def flag_after_default(ds, method, cv_descriptor=None):
+    if method == 'cv':
+        if cv_descriptor is None:
+            cv_descriptor = 'index'
+    crossval = 0 if cv_descriptor is None else 1
+    codes = np.unique(ds[cv_descriptor], return_inverse=True)[1]
+    return kernel(ds, codes, crossval)
+
+
+def kernel(ds, codes, crossval):
+    return ds, codes, crossval
+
+
+# ---- NAME-KEY
+def memo_by_name(models, theta, samples, score):
+    predictions = {m.name: m.predict(theta[j]) for j, m in enumerate(models)}
+    return [[score(predictions[m.name], s) for m in models] for s in samples]
+
+
+def memo_by_position(models, theta, samples, score):
+    predictions = [m.predict(theta[j]) for j, m in enumerate(models)]
+    return [[score(predictions[j], s) for j, m in enumerate(models)] for s in samples]
+
+
+# ---- LATE-BIND
+def closures_called_after_loop(n, minimise, loss):
+    todo = []
+    for i_pair in range(n):
+        def loss_opt(w):
+            return loss(i_pair, w)
+        todo.append(loss_opt)
+    return [minimise(fn) for fn in todo]
+
+
+def closures_called_in_loop(n, minimise, loss):
+    out = []
+    for i_pair in range(n):
+        def loss_opt(w):
+            return loss(i_pair, w)
+        out.append(minimise(loss_opt))
+    return out
